@@ -242,6 +242,13 @@ class C08(Check):
             resp, exc = None, e
         if judged:
             discs += self._judge_send(verdict, payload, resp, exc, reqs, calls, where)
+        elif verdict == 'undecided' and exc is None and resp is not None and resp.is_success and len(resp) >= len(calls):
+            # an extra response without id besides all requested ones: whether it must be rejected is left open, but IF it is
+            # accepted, position k still belongs to call k (the extra element cannot displace a call's response)
+            for k, req in enumerate(reqs):
+                if not typed_eq(resp[k].id, req.id):
+                    discs.append(Disc("C08/send/position-not-in-call-order", f"position {k} holds id {resp[k].id!r}, call {k} has id {req.id!r} (extra null-id element present) | {where}"))
+                    break
 
         # (2) batch.add(...).notify(...).call() with an id generator yielding the same ids
         ids_iter = list(call_ids)
